@@ -11,4 +11,6 @@ mod c32;
 #[cfg(kani)]
 mod c33m;
 #[cfg(kani)]
+mod c23f;
+#[cfg(kani)]
 mod probe;
